@@ -109,12 +109,13 @@ pub struct MemCfg {
     pub s3_thr: u8,
     pub lfu_window: f64,
     pub lfu_protected: f64,
+    pub cb: CbMode,
 }
 
 impl MemCfg {
     pub fn line(&self) -> String {
         format!(
-            "cfg domain=mem algo={} impl={} shards={} cap={} keys={} hmode={} hp_bits={} s3_small_bits={} s3_ghost_bits={} s3_thr={} lfu_window_bits={} lfu_protected_bits={} cm_rows={} cm_buckets={}",
+            "cfg domain=mem algo={} impl={} shards={} cap={} keys={} hmode={} hp_bits={} s3_small_bits={} s3_ghost_bits={} s3_thr={} lfu_window_bits={} lfu_protected_bits={} cm_rows={} cm_buckets={} cb={}",
             self.algo,
             self.imp,
             self.shards,
@@ -129,6 +130,7 @@ impl MemCfg {
             self.lfu_protected.to_bits(),
             datasketches::countmin::CountMinSketch::<u16>::suggest_num_hashes(0.9),
             datasketches::countmin::CountMinSketch::<u16>::suggest_num_buckets(0.001),
+            self.cb.name(),
         )
     }
 
@@ -149,6 +151,7 @@ impl MemCfg {
             s3_thr: g("s3_thr", "1").parse().unwrap_or(1),
             lfu_window: bits("lfu_window_bits", 0.1),
             lfu_protected: bits("lfu_protected_bits", 0.8),
+            cb: CbMode::parse(&g("cb", "none")),
         }
     }
 
@@ -204,14 +207,124 @@ pub enum MemOp {
 
 type Log<T> = Arc<Mutex<Vec<T>>>;
 
+/// What the listener does, re-entrantly, from inside `on_leave` (C16).
+#[derive(Clone, Copy, Debug, PartialEq)]
+pub enum CbMode {
+    None,
+    /// `contains(leaving key)`
+    Contains,
+    /// `get(leaving key)` and drop the handle
+    Get,
+    /// insert a fresh key (1000 + leaving key) of weight 1
+    Insert,
+    /// `remove(0)`
+    Remove,
+}
+
+impl CbMode {
+    pub fn parse(s: &str) -> CbMode {
+        match s {
+            "contains" => CbMode::Contains,
+            "get" => CbMode::Get,
+            "insert" => CbMode::Insert,
+            "remove" => CbMode::Remove,
+            _ => CbMode::None,
+        }
+    }
+    pub fn name(&self) -> &'static str {
+        match self {
+            CbMode::None => "none",
+            CbMode::Contains => "contains",
+            CbMode::Get => "get",
+            CbMode::Insert => "insert",
+            CbMode::Remove => "remove",
+        }
+    }
+}
+
+pub struct Reentry {
+    pub mode: CbMode,
+    pub cache: Option<MCache>,
+    pub depth: u32,
+    pub keys: u64,
+    /// fully formatted trace lines of the nested operations, in execution order
+    pub lines: Vec<String>,
+    pub next_rid: u64,
+    pub next_ver: u64,
+}
+
 struct Listener {
     log: Log<(Event, u64, u64, u64)>,
+    re: Arc<Mutex<Reentry>>,
 }
 impl EventListener for Listener {
     type Key = u64;
     type Value = Val;
     fn on_leave(&self, reason: Event, key: &u64, value: &Val) {
+        let (mode, cache, keys) = {
+            let mut re = self.re.lock();
+            if re.depth > 0 || re.mode == CbMode::None || re.cache.is_none() {
+                drop(re);
+                self.log.lock().push((reason, value.rid, *key, value.ver));
+                return;
+            }
+            re.depth = 1;
+            (re.mode, re.cache.clone().unwrap(), re.keys)
+        };
         self.log.lock().push((reason, value.rid, *key, value.ver));
+        // the nested operation: its own leave events are logged behind a marker
+        let mark = self.log.lock().len();
+        let (text, ret) = match mode {
+            CbMode::Contains => (format!("op=contains k={key}"), (if cache.contains(key) { "t" } else { "f" }).to_string()),
+            CbMode::Get => match cache.get(key) {
+                Some(e) => {
+                    let v = e.value().clone();
+                    let r = format!("h:{}:{}:{}", v.rid, e.key(), v.ver);
+                    (format!("op=get k={key}"), r)
+                }
+                None => (format!("op=get k={key}"), "miss".to_string()),
+            },
+            CbMode::Insert => {
+                let (rid, ver) = {
+                    let mut re = self.re.lock();
+                    let r = (re.next_rid, re.next_ver);
+                    re.next_rid += 1;
+                    re.next_ver += 1;
+                    r
+                };
+                let k = 1000 + *key % 3;
+                let e = cache.insert(k, Val { key: k, ver, rid, weight: 1, phantom: false });
+                let r = format!("h:{rid}:{k}:{ver}");
+                drop(e);
+                (format!("op=ins k={k} w=1 hint=n ph=0 v={ver} id={rid}"), r)
+            }
+            CbMode::Remove => match cache.remove(&0) {
+                Some(e) => {
+                    let v = e.value().clone();
+                    (format!("op=remove k=0"), format!("h:{}:{}:{}", v.rid, e.key(), v.ver))
+                }
+                None => ("op=remove k=0".to_string(), "miss".to_string()),
+            },
+            CbMode::None => unreachable!(),
+        };
+        let nested: Vec<(Event, u64, u64, u64)> = self.log.lock().drain(mark..).collect();
+        let leaves: Vec<String> = nested.iter().map(|(e, rid, k, v)| format!("{}:{rid}:{k}:{v}", ev_name(*e))).collect();
+        let has: Vec<String> = (0..keys).chain(1000..1003).filter(|k| cache.contains(k)).map(|k| k.to_string()).collect();
+        let mut line = format!(
+            "{text} nested=1 ret={ret} leaves={} usage={} entries={} has={}",
+            show_list(leaves),
+            cache.usage(),
+            cache.entries(),
+            show_list(has)
+        );
+        // get / insert / remove returned a handle that was dropped at once
+        if matches!(mode, CbMode::Get | CbMode::Insert | CbMode::Remove) && ret.starts_with("h:") {
+            let rid = ret.split(':').nth(1).unwrap();
+            line.push_str(&format!("\nop=drop rid={rid} nested=1 ret=unit"));
+        }
+        let mut re = self.re.lock();
+        re.lines.push(line);
+        re.depth = 0;
     }
 }
 
@@ -244,12 +357,12 @@ pub type MEntry = CacheEntry<u64, Val, FnBuildHasher, CacheProperties>;
 pub struct MemExec {
     pub cfg: MemCfg,
     pub cache: MCache,
+    pub re: Arc<Mutex<Reentry>>,
     leaves: Log<(Event, u64, u64, u64)>,
     piped: Log<(u64, u64, u64)>,
     /// handles held by the harness, by record id; each with the snapshot taken at acquisition
     pub handles: BTreeMap<u64, Vec<(MEntry, Val)>>,
-    pub next_rid: u64,
-    pub next_ver: u64,
+    pub last_ins_rid: u64,
     rt: tokio::runtime::Runtime,
 }
 
@@ -270,24 +383,27 @@ impl MemExec {
     pub fn new(cfg: MemCfg) -> Self {
         let leaves: Log<(Event, u64, u64, u64)> = Default::default();
         let piped: Log<(u64, u64, u64)> = Default::default();
+        let re = Arc::new(Mutex::new(Reentry { mode: CbMode::None, cache: None, depth: 0, keys: cfg.keys, lines: vec![], next_rid: 0, next_ver: 1 }));
         let cache: MCache = CacheBuilder::new(cfg.cap)
             .with_shards(cfg.shards)
             .with_eviction_config(cfg.eviction_config())
             .with_hash_builder(FnBuildHasher(cfg.hmode))
             .with_weighter(|_k: &u64, v: &Val| v.weight)
             .with_filter(|_k: &u64, v: &Val| !v.phantom)
-            .with_event_listener(Arc::new(Listener { log: leaves.clone() }))
+            .with_event_listener(Arc::new(Listener { log: leaves.clone(), re: re.clone() }))
             .build::<CacheProperties>()
             .with_pipe(Arc::new(RecPipe { log: piped.clone() }));
         let rt = tokio::runtime::Builder::new_current_thread().enable_all().build().unwrap();
+        re.lock().cache = Some(cache.clone());
+        re.lock().mode = cfg.cb;
         MemExec {
             cfg,
             cache,
+            re,
             leaves,
             piped,
             handles: BTreeMap::new(),
-            next_rid: 0,
-            next_ver: 1,
+            last_ins_rid: 0,
             rt,
         }
     }
@@ -321,15 +437,29 @@ impl MemExec {
 
     /// Execute one operation on the real cache and return the trace line.
     pub fn exec(&mut self, op: &MemOp) -> String {
+        let line = self.exec_inner(op);
+        crate::CUR_OP.lock().clear();
+        let mut t = crate::CUR_TRACE.lock();
+        t.push_str(&line);
+        t.push('\n');
+        line
+    }
+
+    fn exec_inner(&mut self, op: &MemOp) -> String {
+        crate::progress(&Self::op_text(op));
         self.leaves.lock().clear();
         self.piped.lock().clear();
         let mut line = Self::op_text(op);
         let ret = match op {
             MemOp::Ins { k, w, low, phantom } => {
-                let rid = self.next_rid;
-                self.next_rid += 1;
-                let ver = self.next_ver;
-                self.next_ver += 1;
+                let (rid, ver) = {
+                    let mut re = self.re.lock();
+                    let r = (re.next_rid, re.next_ver);
+                    re.next_rid += 1;
+                    re.next_ver += 1;
+                    r
+                };
+                self.last_ins_rid = rid;
                 let _ = write!(line, " v={ver} id={rid}");
                 let val = Val { key: *k, ver, rid, weight: *w, phantom: *phantom };
                 let props = CacheProperties::default().with_hint(if *low { Hint::Low } else { Hint::Normal });
@@ -390,7 +520,26 @@ impl MemExec {
             .map(|(e, rid, k, v)| format!("{}:{rid}:{k}:{v}", ev_name(*e)))
             .collect();
         let piped: Vec<String> = self.piped.lock().iter().map(|(rid, k, v)| format!("{rid}:{k}:{v}")).collect();
-        let has: Vec<String> = (0..self.cfg.keys).filter(|k| self.cache.contains(k)).map(|k| k.to_string()).collect();
+        let reentrant = self.re.lock().mode != CbMode::None;
+        let nested: Vec<String> = std::mem::take(&mut self.re.lock().lines);
+        if reentrant {
+            // the outer operation: return value only (its notifications interleave with what the
+            // callbacks did, which follows); the state observations come on a separate pure line
+            let _ = write!(line, " ret={ret} leaves={}", show_list(leaves));
+            for n in nested {
+                line.push('\n');
+                line.push_str(&n);
+            }
+            line.push_str("\nop=contains k=0 ret=");
+            line.push_str(if self.cache.contains(&0) { "t" } else { "f" });
+        } else {
+            let _ = write!(line, " ret={ret} leaves={} piped={}", show_list(leaves), show_list(piped));
+        }
+        let has: Vec<String> = (0..self.cfg.keys)
+            .chain(if reentrant { 1000..1003 } else { 0..0 })
+            .filter(|k| self.cache.contains(k))
+            .map(|k| k.to_string())
+            .collect();
         let mut held = vec![];
         let mut stable = true;
         for (rid, hs) in self.handles.iter() {
@@ -406,9 +555,7 @@ impl MemExec {
         held.sort();
         let _ = write!(
             line,
-            " ret={ret} leaves={} piped={} usage={} entries={} has={} held={} stable={}",
-            show_list(leaves),
-            show_list(piped),
+            " usage={} entries={} has={} held={} stable={}",
             self.cache.usage(),
             self.cache.entries(),
             show_list(has),
@@ -418,6 +565,9 @@ impl MemExec {
         line
     }
 }
+
+/// Set by `cb=1`: re-entrant listener campaigns (C16), single shard.
+pub static REENTRANT: std::sync::atomic::AtomicBool = std::sync::atomic::AtomicBool::new(false);
 
 /// Set by `collide=1`: only colliding hashers (C17 campaigns).
 pub static COLLIDE: std::sync::atomic::AtomicBool = std::sync::atomic::AtomicBool::new(false);
@@ -457,6 +607,7 @@ pub fn gen_cfg(rng: &mut Rng, mode: &str, algo: &str) -> MemCfg {
         s3_thr: *rng.pick(&[1u8, 0, 2, 3, 5]),
         lfu_window: *rng.pick(&[0.1, 0.3, 0.5]),
         lfu_protected: *rng.pick(&[0.8, 0.5, 0.3]),
+        cb: CbMode::None,
     }
     .fix()
 }
@@ -513,9 +664,14 @@ pub fn gen_op(rng: &mut Rng, ex: &MemExec) -> MemOp {
 
 /// Run one generated case; returns the trace text.
 pub fn run_case(rng: &mut Rng, mode: &str, algo: &str, maxops: u64) -> String {
-    let cfg = gen_cfg(rng, mode, algo);
+    let mut cfg = gen_cfg(rng, mode, algo);
+    if REENTRANT.load(std::sync::atomic::Ordering::Relaxed) {
+        cfg.shards = 1;
+        cfg.cb = *rng.pick(&[CbMode::Contains, CbMode::Get, CbMode::Insert, CbMode::Remove]);
+    }
     let mut out = cfg.line();
     out.push('\n');
+    *crate::CUR_TRACE.lock() = out.clone();
     let mut ex = MemExec::new(cfg);
     let n = rng.range(1, maxops);
     let mut i = 0;
@@ -526,7 +682,7 @@ pub fn run_case(rng: &mut Rng, mode: &str, algo: &str, maxops: u64) -> String {
         i += 1;
         // an inserted / looked-up handle is usually given back immediately
         let fresh = match &op {
-            MemOp::Ins { .. } => Some((ex.next_rid - 1, 3)),
+            MemOp::Ins { .. } => Some((ex.last_ins_rid, 3)),
             MemOp::Get { .. } | MemOp::Remove { .. } => None,
             _ => None,
         };
@@ -563,6 +719,7 @@ pub fn replay(text: &str) -> String {
             let cfg = MemCfg::parse(line);
             out.push_str(&cfg.line());
             out.push('\n');
+            *crate::CUR_TRACE.lock() = cfg.line() + "\n";
             ex = Some(MemExec::new(cfg));
             idmap.clear();
             continue;
@@ -572,7 +729,7 @@ pub fn replay(text: &str) -> String {
         let op = match f.get("op").map(|s| s.as_str()) {
             Some("ins") => {
                 if let Some(id) = f.get("id").and_then(|v| v.parse::<u64>().ok()) {
-                    idmap.insert(id, ex.next_rid);
+                    idmap.insert(id, ex.re.lock().next_rid);
                 }
                 MemOp::Ins {
                     k: n("k"),
@@ -614,18 +771,17 @@ pub fn main(args: &Args) -> i32 {
     let cases = arg_u64(args, "cases", 100);
     let maxops = arg_u64(args, "maxops", 40);
     COLLIDE.store(arg_u64(args, "collide", 0) == 1, std::sync::atomic::Ordering::Relaxed);
+    REENTRANT.store(arg_u64(args, "cb", 0) == 1, std::sync::atomic::Ordering::Relaxed);
     let mode = arg_str(args, "mode", "oracle").to_string();
     let algo_arg = arg_str(args, "algos", "fifo,lru,sieve,s3fifo,lfu").to_string();
     let algos: Vec<&str> = algo_arg.split(',').collect();
     let mut rng = Rng::new(seed);
-    let stdout = std::io::stdout();
-    use std::io::Write;
-    let mut w = std::io::BufWriter::new(stdout.lock());
     for i in 0..cases {
         let algo = algos[(i as usize) % algos.len()];
         let mut r = rng.fork();
         let t = run_case(&mut r, &mode, algo, maxops);
-        w.write_all(t.as_bytes()).unwrap();
+        crate::CUR_TRACE.lock().clear();
+        print!("{t}");
     }
     0
 }
